@@ -30,6 +30,8 @@ RULE = ('exhaustive: every (table, name, value) of elf/enums.py (ENUM_*, ENUMMAP
         'vendored/supplement registry, or - V800/V850 only - the code is known to the live readelf). '
         'Distinct by (table, name).')
 N = {'quick': 200, 'thorough': 2000}
+# the child interpreter (-O -bb, C locale) runs the enumeration too: what a name is translated to must not depend on the interpreter mode
+ALIEN_BULK = True
 ASSUMPTIONS = [
     'vendored glibc 2.36 elf.h and LLVM 14 BinaryFormat headers are faithful registries; where they disagree (EM_ALPHA, '
     'SHT_HIUSER, DT_LOOS, DT_HIOS) either value is accepted',
